@@ -679,6 +679,34 @@ func run(o hx.RunOpts) error {
 		s.Op("tok "+enc(txt), encList(w.tok.Tokenize(txt)))
 		s.Hit("tok_alphabet")
 	}
+	// every entry of the stop-word table, in each letter case, alone and among other words, and its near misses
+	// (one letter more, one letter less): the table is filtered entry by entry, whatever the entry's length
+	{
+		var stops []string
+		for sw, on := range search.DefaultStopWords {
+			if on {
+				stops = append(stops, sw)
+			}
+		}
+		sort.Strings(stops)
+		for _, sw := range stops {
+			r := []rune(sw)
+			forms := []string{sw, strings.ToUpper(sw), strings.ToUpper(string(r[:1])) + string(r[1:]), sw + "s", "x" + sw, "fox " + sw + " go", sw + " " + sw}
+			if len(r) > 1 {
+				forms = append(forms, string(r[:len(r)-1]))
+			}
+			for _, txt := range forms {
+				toks := w.tok.Tokenize(txt)
+				s.Op("tok "+enc(txt), encList(toks))
+				s.Hit("tok_stopword_table")
+				for _, t := range toks {
+					if search.DefaultStopWords[t] {
+						s.Fail("C32/stop-word-indexed", "the tokenizer let an entry of the stop-word table through (it would be indexed, counted in document lengths and matched by queries)", enc(txt)+" -> "+enc(t))
+					}
+				}
+			}
+		}
+	}
 	for i := 0; i < o.N(300, 5000); i++ {
 		txt := genText(p, fixedWords, 8)
 		toks := w.tok.Tokenize(txt)
